@@ -538,6 +538,40 @@ def enabledRelay (s : Series) (x : Sub) : Bool :=
   | .timer => (match x with | .tval j => decide (j < s.values.length) | _ => false)
   | .set => (match x with | .member j => decide (j < s.members.length) | _ => false)
 
+/-- … for New Relic (`nrEmit`), all three flush types.  Counters, gauges and sets as in the statsd family.  A
+histogram timer yields, per bucket, the bucket count *and* its per-second companion.  A plain timer:
+* flush type `metrics` (Metric API): the nine aggregations gated by the mask, **except** that the four
+  statistics that live inside the `summary` metric (`nrInSummary`: lower, upper, count, sum) are sent whether or
+  not they are masked; plus the percentiles;
+* flush types `infra` / `insights` (one event per series): the event's own `metric_value` (`.summary`), the nine
+  aggregations gated by the mask, and the percentiles. -/
+def enabledNr (c : Cfg) (s : Series) (x : Sub) : Bool :=
+  match s.kind with
+  | .counter => x = .count || x = .rate
+  | .gauge => x = .value
+  | .set => x = .value
+  | .timer =>
+    match s.hist with
+    | some bs => (match x with | .bucket j => decide (j < bs.length) | .bucketPs j => decide (j < bs.length) | _ => false)
+    | none =>
+      (match c.nrMode with
+       | .metrics => timerSubs.contains x && (nrInSummary x || !c.mask.dis x)
+       | _ => x = .summary || (timerSubs.contains x && !c.mask.dis x)) ||
+      (match x with | .pct j => decide (j < s.pcts.length) | _ => false)
+
+/-- … for otlp with `otlpHist = true` (timers as one OTLP histogram data point): a timer is exactly its
+`.summary` record, with or without `Timer.Histogram`; the mask plays no role; the rest as in the statsd family -/
+def enabledOtlpHist (s : Series) (x : Sub) : Bool :=
+  match s.kind with
+  | .counter => x = .count || x = .rate
+  | .gauge => x = .value
+  | .set => x = .value
+  | .timer => x = .summary
+
+/-- otlp, both conversions of timers -/
+def enabledOtlp (c : Cfg) (s : Series) (x : Sub) : Bool :=
+  if c.otlpHist then enabledOtlpHist s x else enabledStd c.mask s x
+
 /-! ## batching, exactly as coded -/
 
 section batching
